@@ -1075,6 +1075,16 @@ void OutputManager::print_multiple(const ASTNode *arg_list) {
     if (arg_list && (arg_list->node_type == ASTNodeType::AST_PRINT_STMT ||
                      arg_list->node_type == ASTNodeType::AST_PRINTLN_STMT)) {
 
+        // 文字列リテラルは単一引数の場合と同じくエスケープ処理して出力する
+        auto print_argument = [&](const ASTNode *node) {
+            if (node && node->node_type == ASTNodeType::AST_STRING_LITERAL) {
+                std::string output = process_escape_sequences(node->str_value);
+                io_interface_->write_string(output.c_str());
+            } else {
+                print_value(node);
+            }
+        };
+
         debug_msg(DebugMsgId::PRINT_MULTIPLE_PROCESSING,
                   (arg_list->node_type == ASTNodeType::AST_PRINT_STMT)
                       ? "AST_PRINT_STMT"
@@ -1122,7 +1132,7 @@ void OutputManager::print_multiple(const ASTNode *arg_list) {
                     for (size_t j = 0; j < i; j++) {
                         if (j > 0)
                             io_interface_->write_char(' ');
-                        print_value(arg_list->arguments[j].get());
+                        print_argument(arg_list->arguments[j].get());
                     }
                     if (i > 0)
                         io_interface_->write_char(' ');
@@ -1141,7 +1151,7 @@ void OutputManager::print_multiple(const ASTNode *arg_list) {
         for (size_t i = 0; i < arg_list->arguments.size(); ++i) {
             if (i > 0)
                 io_interface_->write_char(' '); // スペース区切りで出力
-            print_value(arg_list->arguments[i].get());
+            print_argument(arg_list->arguments[i].get());
         }
         // 改行なし
         return;
